@@ -63,7 +63,10 @@ partial def loop (hin : IO.FS.Stream) (hout : IO.FS.Stream) : IO Unit := do
     match Json.parse line with
     | .ok j =>
       let op := Json.getStr! j "op"
-      let r := dispatch op j
+      -- `noModel`: the case is judged against the property alone (e.g. a loop of 2^32 iterations in a defective tree)
+      let r := match j.getObjVal? "noModel" with
+        | .ok (.bool true) => Json.mkObj [("skipped", true)]
+        | _ => dispatch op j
       match j.getObjVal? "i" with
       | .ok i => r.setObjVal! "i" i
       | .error _ => r
